@@ -42,6 +42,7 @@ func instanceDescFields(pkg *packages.Package) (*types.Named, []*types.Var) {
 }
 
 func runC13(c *core.Ctx) {
+	c.Rule("R9", "a subring is selected and assembled under one hold of the ring lock, so a cached shard never carries a newer topology stamp than its content (shared with C05.R12)", 3)
 	c.Rule("R1", "every InstanceDesc field is CMP, VOL or DERIVED for the equality shortcut; VOL = fields refreshed into cached subrings (both getters)", 10)
 	c.Rule("R2", "index builders and shard membership read no volatile field", 12)
 	c.Rule("R8", "a topology change replaces every derived Ring field unconditionally", 1)
@@ -67,6 +68,7 @@ func runC13(c *core.Ctx) {
 	c13Partition(c, pkg)
 	c13Validity(c, pkg)
 	c13LowerBound(c, pkg, "R6")
+	c05Snapshot(c, pkg, "R9")
 	c13ImmutableIndex(c, pkg, "R7")
 	c13RefreshAll(c, pkg, "R8")
 }
